@@ -197,7 +197,8 @@ def c06(tier, replay):
     R.family_direction_a(run, "C06", ("check",), {"castle": 8, "ep": 80, "promo": 12} if tier == "quick" else {"castle": 1, "ep": 4, "promo": 1})
     run.cov["rule"] = ("families enumerated by the harness: (A) king on every square x enemy Q/R/B/N/P on every other square, both "
                        "colours; (B) the same with one blocker (own pawn, enemy pawn, enemy knight) on every square strictly between; "
-                       "(C) both kings on every ordered pair of squares; (D) random placements with up to 24 extra men; quick = every "
+                       "(C) both kings on every ordered pair of squares; (D) random placements with up to 24 extra men; (E) a king on every square with "
+                       "all its neighbours its own men and an enemy knight on each knight square / a few enemy men elsewhere (always complete); quick = every "
                        "%d-th member (offset from the seed), thorough = all; is_check for both colours judged by Chess!InCheck" % stride)
     return run.finish()
 
